@@ -18,6 +18,8 @@ pub struct GetterObs {
     pub name: &'static str,
     pub shape: String,
     pub leaves: Vec<Leaf>,
+    /// the value with its slots: `#` a node, `N` / `S..` an Option, `[..]` a Vec, `(..,..)` a tuple
+    pub slots: String,
 }
 
 /// Implemented (by macro, in the generated code and below) for every node type a getter can return.
@@ -28,6 +30,7 @@ pub trait LeafNode: Debug {
 pub trait Flat {
     fn shape() -> String;
     fn flat(&self, out: &mut Vec<Leaf>);
+    fn slots(&self, out: &mut String);
 }
 
 impl<'s, T: LeafNode> Flat for &'s T {
@@ -40,6 +43,9 @@ impl<'s, T: LeafNode> Flat for &'s T {
             debug: format!("{:?}", self),
         });
     }
+    fn slots(&self, out: &mut String) {
+        out.push('#');
+    }
 }
 
 impl<T: Flat> Flat for Option<T> {
@@ -49,6 +55,15 @@ impl<T: Flat> Flat for Option<T> {
     fn flat(&self, out: &mut Vec<Leaf>) {
         if let Some(x) = self {
             x.flat(out)
+        }
+    }
+    fn slots(&self, out: &mut String) {
+        match self {
+            Some(x) => {
+                out.push('S');
+                x.slots(out)
+            }
+            None => out.push('N'),
         }
     }
 }
@@ -62,6 +77,16 @@ impl<T: Flat> Flat for Vec<T> {
             x.flat(out)
         }
     }
+    fn slots(&self, out: &mut String) {
+        out.push('[');
+        for (i, x) in self.iter().enumerate() {
+            if i > 0 {
+                out.push(',');
+            }
+            x.slots(out);
+        }
+        out.push(']');
+    }
 }
 
 macro_rules! tuple_flat {
@@ -73,6 +98,11 @@ macro_rules! tuple_flat {
             }
             fn flat(&self, out: &mut Vec<Leaf>) {
                 $( self.$i.flat(out); )+
+            }
+            fn slots(&self, out: &mut String) {
+                out.push('(');
+                $( if $i > 0 { out.push(','); } self.$i.slots(out); )+
+                out.push(')');
             }
         }
     };
@@ -88,10 +118,13 @@ tuple_flat!(A 0, B 1, C 2, D 3, E 4, F 5, G 6, H 7);
 pub fn observe_getter<T: Flat>(name: &'static str, v: T) -> GetterObs {
     let mut leaves = vec![];
     v.flat(&mut leaves);
+    let mut slots = String::new();
+    v.slots(&mut slots);
     GetterObs {
         name,
         shape: T::shape(),
         leaves,
+        slots,
     }
 }
 
